@@ -239,7 +239,25 @@ type Job struct {
 	StarveHi int    `json:"starve_hi,omitempty"`
 	RunNext  bool   `json:"run_next,omitempty"` // this job explores around the "readied goroutine runs next" base schedule
 	Weight   int    `json:"weight"`
-	Phase    int    `json:"phase"` // deviation bound of the scenario: lower phases are served first
+	Phase    int    `json:"phase"`           // deviation bound of the scenario: lower phases are served first
+	Extra    bool   `json:"extra,omitempty"` // thorough tier: a job the quick tier does not have (served after those it has)
+}
+
+// class orders the thorough tier: what the quick tier has too, then further scenarios and bounds
+// under the FIFO and run-next base schedules, then further starvation schedules (64 runs of a
+// scenario each; the heaviest part, which a 20 minute budget does not finish for most properties).
+func (j Job) class() int {
+	switch {
+	case !j.Extra:
+		return 0
+	case j.Starve == 0:
+		return 1
+	}
+	return 2
+}
+
+func (j Job) key() string {
+	return fmt.Sprintf("%s|%d/%d|%v|%d", j.Name, j.SplitIdx, j.SplitK, j.RunNext, j.Starve)
 }
 
 func mustGen(prop string) Gen {
@@ -293,9 +311,24 @@ func Jobs(prop, tier string) []Job {
 	for i, p := range plains {
 		out = append(out, Job{Index: len(scns) + i, Name: p.Name, SplitK: 1, Weight: p.Weight})
 	}
+	// The thorough tier first serves every job the quick tier has as well (same scenario, same
+	// base schedule, same victims), so that a thorough run that hits its time budget still
+	// covers what the quick run covers.
+	if tier == "thorough" {
+		quick := map[string]bool{}
+		for _, j := range Jobs(prop, "quick") {
+			quick[j.key()] = true
+		}
+		for i := range out {
+			out[i].Extra = !quick[out[i].key()]
+		}
+	}
 	// Lower bounds first, so that a run that hits its time budget has completed everything of
 	// the smaller bounds (and says so); within a bound the heaviest jobs first (better packing).
 	sort.SliceStable(out, func(a, b int) bool {
+		if ca, cb := out[a].class(), out[b].class(); ca != cb {
+			return ca < cb
+		}
 		if out[a].Phase != out[b].Phase {
 			return out[a].Phase < out[b].Phase
 		}
